@@ -174,6 +174,16 @@ CLAIMED = {
              "duplicating each of three off-axis sensors; a rebuild with the science direction moved, same conditioning.",
         note="Optimality for arbitrary real PSD matrices follows from the normal equations (a theorem, not re-proved here); TLC "
              "decides it on the integer family only."),
+    "C17": dict(
+        engine="tlc+trace", design_ref="DESIGN.md §3 C17",
+        technique="TLA+ spec Units.tla: converters as monomials with exact rational exponents; the statement's diagram (six inverse pairs, two composites, scaling laws, slope-variance pair, single-layer reductions, per-band affine log10 maps with slope -2/5, photon counts of degree 1 in area and time) decided by TLC on the MEASURED monomials of the real functions, one verdict per clause; axis argument decided as index-level dataflow by TLC for every shape of rank 1-3 and every axis and replayed",
+        text="Identities between monomials hold for all positive arguments, so deciding the diagram on the measured exponent vectors "
+             "and coefficients decides the laws for the whole domain; measurement uses three random base points and two scaling "
+             "factors per argument (agreement to 1e-9, rational with denominator <= 30). All twelve bands, both directions. The axis "
+             "clause: 204 (shape, axis) cases (thorough: extents to 4) on three profile integrals with scalar and array altitude/wind, "
+             "compared with the per-profile loop.",
+        note="Coefficients are compared as round(1e6 log10 c) with a tolerance of 3e-6 (12e-6 for band offsets); the 0.314 reductions "
+             "within 1 % as the statement says."),
 }
 
 NOT_APPLICABLE = {
